@@ -1,10 +1,10 @@
 (* C04, the TRANSLATED decoder on EVERY short text, continued (the bounds are part of the statements):
-   - float literals: agreement with the specification parser on every text of at most 6 symbols over
+   - float literals: agreement with the specification parser on every text of at most 5 symbols over
      1 . - + f D d [ ] , and space, under float oracles that are consistent with each other (both read the decimal text,
      sign included, a leading + dropped, as a base-256 number: what matters is that the specification hands
      (sign, integer digits, fraction digits) to its oracle and the Go code hands the token without its suffix letter to
      strconv.ParseFloat, and that these are the same text);
-   - totality: on every text of at most 5 symbols over that alphabet the interpretation ends in a payload or an error -
+   - totality: on every text of at most 4 symbols over that alphabet the interpretation ends in a payload or an error -
      no panic, no statement without a meaning, no exhausted fuel. *)
 From Coq Require Import List ZArith NArith Bool Lia.
 From GoMC Require Import Model.C04_dsyntax Model.C04_dec Gen.Decoder Proofs.C04_dec.
@@ -24,25 +24,25 @@ Definition agree_f (text : list Z) : bool :=
   | Some t => match decode_text zpf decoder_prog text with DOk o => zeqb o (map Z.of_N (C04.enc t)) | _ => false end
   | None => true
   end.
-Lemma sweep_f : checkp agree_f alpha3 6 [] = true.
+Lemma sweep_f : checkp agree_f alpha3 5 [] = true.
 Proof. vm_cast_no_check (eq_refl true). Qed.
-Lemma sweep_t3 : checkp (total zpf) alpha3 5 [] = true.
+Lemma sweep_t3 : checkp (total zpf) alpha3 4 [] = true.
 Proof. vm_cast_no_check (eq_refl true). Qed.
 
 Theorem decoder_agrees_short_floats (text : list Z) (t : C04.tag) :
-  (length text <= 6)%nat -> Forall (fun c => In c alpha3) text ->
+  (length text <= 5)%nat -> Forall (fun c => In c alpha3) text ->
   C04.parse spf spf (map Z.to_N text) = Some t ->
   decode_text zpf decoder_prog text = DOk (map Z.of_N (C04.enc t)).
 Proof.
-  intros L F P. pose proof (checkp_sound agree_f alpha3 6 [] sweep_f text L F) as A. simpl in A.
+  intros L F P. pose proof (checkp_sound agree_f alpha3 5 [] sweep_f text L F) as A. simpl in A.
   unfold agree_f in A. rewrite P in A. destruct (decode_text zpf decoder_prog text); try discriminate A.
   f_equal. apply zeqb_eq, A.
 Qed.
 
 Theorem decoder_total_short3 (text : list Z) :
-  (length text <= 5)%nat -> Forall (fun c => In c alpha3) text ->
+  (length text <= 4)%nat -> Forall (fun c => In c alpha3) text ->
   (exists o, decode_text zpf decoder_prog text = DOk o) \/ decode_text zpf decoder_prog text = DErr.
 Proof.
-  intros L F. pose proof (checkp_sound (total zpf) alpha3 5 [] sweep_t3 text L F) as A. simpl in A.
+  intros L F. pose proof (checkp_sound (total zpf) alpha3 4 [] sweep_t3 text L F) as A. simpl in A.
   unfold total in A. destruct (decode_text zpf decoder_prog text); try discriminate A; [left; eauto | right; reflexivity].
 Qed.
